@@ -7,5 +7,16 @@ is the vjp of the cotangent w — the [T] contract of torch.autograd.backward(te
 from .aggs import SPECS, build_check
 
 CHECKS = [build_check("C05", SPECS[k], clauses=("rejects", "post", "span")) for k in ("Constant", "Sum", "Mean")]
+
+
+def _with_backward():
+    """'coincides with autograd' is about what backward() DEPOSITS with such an aggregator: the contract of backward() (C01:
+    aggregator input = true Jacobian, every requested input gets its slice, inputs given in any iterable) and of Aggregate
+    (C15: the aggregator is applied to the whole united matrix, whatever its number of rows) are obligations of this property."""
+    from .C01 import CHECKS as c01
+    return [c for c in c01 if c.name in ("backward", "aggregate")]
+
+
+CHECKS += _with_backward()
 TRUSTED = ["torch.autograd.backward(tensors, grad_tensors=w) deposits sum_j vjp(t_j, x, w|_j) [T]",
            "bridge lemmas vecMul_rows_of_linear, linear_agg_eq_vjp (Lean)"]
